@@ -631,12 +631,10 @@ static cfg_opt_t *cfg_addopt(cfg_t *cfg, char *key)
 	/* Write new opt to previous CFG_END() marker */
 	cfg->opts = opts;
 	cfg->opts[num].name = strdup(key);
-	cfg->opts[num].type = CFGT_STR;
+	if (!cfg->opts[num].name)
+		return NULL;	/* cfg->opts owns the (grown) array, opts[num] still ends it */
 
-	if (!cfg->opts[num].name) {
-		free(opts);
-		return NULL;
-	}
+	cfg->opts[num].type = CFGT_STR;
 
 	/* Set new CFG_END() */
 	memset(&cfg->opts[num + 1], 0, sizeof(cfg_opt_t));
